@@ -48,6 +48,18 @@ func init() {
 		if ok2 := w.GovExec("multipliers", &mctypes.MsgUpdatePoolMultipliers{Authority: w.Gov, PoolMultipliers: []mctypes.PoolMultiplier{{PoolId: 1, Multiplier: chain.Dec("2.0")}, {PoolId: 2, Multiplier: chain.Dec("0.5")}}}); ok2 {
 			c.Ev("multipliers_changed")
 		}
+		// every other instance: governance gives the constant-product pool a fee denom other than the
+		// base currency (accepted: its own non-stable asset), so its collected fees are converted into
+		// and distributed from a different token than everybody else's
+		if c.Job.Index%2 == 0 && !w.Dead {
+			if p2, ok := w.App.AmmKeeper.GetPool(w.ReadCtx(), 2); ok {
+				pp := p2.PoolParams
+				pp.FeeDenom = "uelys"
+				if w.GovExec("pool 2 fee denom", &ammtypes.MsgUpdatePoolParams{Authority: w.Gov, PoolId: 2, PoolParams: pp}) {
+					c.Ev("pool_fee_denom_is_not_the_base_currency")
+				}
+			}
+		}
 		g.Free(n/4, g.StdDt)
 		// price outage around the start of an incentive in a reward denom that is new to its pool: the
 		// oracle parameters are made short-lived, every feed stops until all prices have expired (pool
